@@ -282,7 +282,7 @@ func (x *c11Run) afterRejection(key string) {
 	}
 	_ = er
 	// a message that the state (unchanged by the rejection) permits
-	for k := range x.t.bytes {
+	for _, k := range x.t.Spec.Keys() {
 		m, err := x.t.Build[k]()
 		if err != nil {
 			continue
